@@ -77,8 +77,9 @@ def single_field_sweeps(bases=None) -> list[dict]:
     return out
 
 
-def apply_to_client(ac, s: dict) -> None:
-    """Set the public attributes of an AirConditioner from a state vector."""
+def apply_to_client(ac, s: dict, aliases: bool = False) -> None:
+    """Set the public attributes of an AirConditioner from a state vector (aliases: through the older attribute names
+    eco_mode / turbo_mode / sleep_mode / freeze_protection_mode that the library still offers)."""
     from msmart.device import AirConditioner as AC
     ac.power_state = s["power"]
     ac.operational_mode = AC.OperationalMode(s["mode"])
@@ -88,11 +89,11 @@ def apply_to_client(ac, s: dict) -> None:
     except ValueError:
         ac.fan_speed = s["fan"]
     ac.swing_mode = AC.SwingMode(s["swing"])
-    ac.eco = s["eco"]
-    ac.turbo = s["turbo"]
-    ac.sleep = s["sleep"]
+    if aliases:
+        ac.eco_mode, ac.turbo_mode, ac.sleep_mode, ac.freeze_protection_mode = s["eco"], s["turbo"], s["sleep"], s["freeze"]
+    else:
+        ac.eco, ac.turbo, ac.sleep, ac.freeze_protection = s["eco"], s["turbo"], s["sleep"], s["freeze"]
     ac.fahrenheit = s["fahrenheit"]
-    ac.freeze_protection = s["freeze"]
     ac.follow_me = s["follow_me"]
     ac.purifier = s["purifier"]
     ac.target_humidity = s["humidity"]
